@@ -38,11 +38,22 @@ def crs_kind(label: Optional[str]) -> str:
     return CRS_POOL[label][0]
 
 
+# CRSs that resemble a registered one (same projection parameters) but are NOT it: the axes point the other way
+# (westing/southing positive).  pyproj says they differ and maps the same ground point to (x, y) of opposite sign.
+# Only used where named explicitly (label "like:..."), never drawn by crs_tags().
+LOOKALIKES = {
+    "like:utm33wsu": ("32633", "+proj=utm +zone=33 +datum=WGS84 +units=m +axis=wsu +no_defs +type=crs"),
+    "like:utm55s_wsu": ("32755", "+proj=utm +zone=55 +south +datum=WGS84 +units=m +axis=wsu +no_defs +type=crs"),
+}
+
+
 def _pyproj(label: str):
     from pyproj import CRS as P
 
     if label == "sinu":
         return P.from_user_input(SINU_PROJ)
+    if label in LOOKALIKES:
+        return P.from_user_input(LOOKALIKES[label][1])
     return P.from_epsg(int(label))
 
 
@@ -53,6 +64,11 @@ def mk_crs_spec(tag) -> Any:
     from odc.geo.crs import CRS
 
     label, spell = tag["label"], tag["spell"]
+    if label in LOOKALIKES:
+        if spell == "proj":
+            return LOOKALIKES[label][1]
+        pp = _pyproj(label)
+        return {"wkt2": lambda: pp.to_wkt(version="WKT2_2019"), "pyproj": lambda: pp}[spell]()
     if spell == "int":
         return int(label)
     if spell == "str_lower":
